@@ -322,9 +322,22 @@ def replay_step_sym(sa, sb):
     return rp
 
 
+_FOUND = {}
+
+
 def _turn_and_check(X0):
-    """the solver chose the sign LAPACK gives the normal; the real SVD cannot be told which sign to return, so the model's geometry is replayed as it
-    is and turned about the viewing axis in 1-degree steps until the real code (real SVD) shows the violation"""
+    """the solver chose the sign LAPACK gives the normal; the real SVD cannot be told which sign to return.  The candidate is concretised on the real
+    code: the model's geometry as it is and turned about the viewing axis in 1-degree steps, then a seeded search over tilted centres of the same
+    family (random plane normal, neighbour positions in that plane, centre and substituent), each in 12 orientations, until the real code (real SVD)
+    shows the handedness clause itself failing.  The solver's verdict says that a failing pose exists for some sign; the search only has to find one."""
+    if "hit" in _FOUND:
+        ok, detail = _numeric_step(_FOUND["hit"])
+        if not ok:
+            return False, detail
+    if "hit2" in _FOUND:
+        ok, detail = _numeric_two_marks(*_FOUND["hit2"])
+        if not ok:
+            return False, detail
     first = None
     for deg in range(0, 360):
         th = math.radians(deg)
@@ -333,8 +346,65 @@ def _turn_and_check(X0):
         if first is None:
             first = detail
         if not ok:
+            _FOUND["hit"] = X0 @ Rz.T
             return False, detail
-    return True, "model and its 359 turns about the viewing axis all pass with the real SVD: " + first
+    rng = np.random.default_rng(13)
+    for t in range(1500):
+        n = rng.normal(size=3)
+        n /= np.linalg.norm(n)
+        if abs(n[2]) < 0.15 or abs(n[2]) > 0.97:
+            continue
+        u = np.cross(n, [0, 0, 1.0])
+        u /= np.linalg.norm(u)
+        w = np.cross(n, u)
+        ang = np.sort(rng.uniform(0, 2 * np.pi, 3))
+        if np.min(np.diff(np.append(ang, ang[0] + 2 * np.pi))) < 0.6:
+            continue
+        foot = rng.normal(size=3) * 0.3
+        nb = [foot + 1.4 * (np.cos(a) * u + np.sin(a) * w) for a in ang]
+        c = foot + n * rng.uniform(-0.6, 0.6)
+        q = nb[0] + rng.normal(size=3)
+        X = np.array([c] + nb + [q])
+        for deg in range(0, 360, 30):
+            th = math.radians(deg)
+            Rz = np.array([[math.cos(th), -math.sin(th), 0], [math.sin(th), math.cos(th), 0], [0, 0, 1]])
+            ok, detail = _numeric_step(X @ Rz.T)
+            if not ok:
+                _FOUND["hit"] = X @ Rz.T
+                return False, detail
+    # the same question on whole drawings: a flat centre with 3 or 4 neighbours, a wedge on one bond and a hash on another, against the mirrored marks
+    for t in range(4000):
+        k = int(rng.choice([3, 4]))
+        ang = np.sort(rng.uniform(0, 2 * np.pi, k))
+        if np.min(np.diff(np.append(ang, ang[0] + 2 * np.pi))) < 0.5:
+            continue
+        P = np.array([[0.0, 0.0, 0.0]] + [[1.5 * math.cos(a), 1.5 * math.sin(a), 0.0] for a in ang])
+        i, j = (int(v) for v in rng.choice(range(1, k + 1), 2, replace=False))
+        ok, detail = _numeric_two_marks(P, i, j)
+        if not ok:
+            _FOUND["hit2"] = (P, i, j)
+            return False, detail
+    return True, "model, its 359 turns about the viewing axis, 1500 x 12 random tilted centres and 4000 random two-mark drawings all pass with the real SVD: " + first
+
+
+def _numeric_two_marks(P, i, j):
+    out = []
+    for s1, s2 in ((+1, -1), (-1, +1)):
+        m = Structure([Atom("C") for _ in range(len(P))], coords=np.array(P, dtype=float))
+        for b in range(1, len(P)):
+            m.connect(0, b)
+        with warnings.catch_warnings():
+            warnings.simplefilter("ignore")
+            CX._cdxml_3dify_(m, 0, i, sign=s1)
+            CX._cdxml_3dify_(m, 0, j, sign=s2)
+        out.append(m.coords.copy())
+    A, B = out
+    va = float(np.linalg.det(np.array([A[b] - A[0] for b in (1, 2, 3)])))
+    vb = float(np.linalg.det(np.array([B[b] - B[0] for b in (1, 2, 3)])))
+    where = f"flat centre with neighbours {np.round(P[1:, :2], 4).tolist()}, wedge on bond 0-{i} and hash on bond 0-{j} against the mirrored marks"
+    if abs(va) > 1e-7 and va * vb >= 0:
+        return False, where + f": signed volume {va:.4g} and {vb:.4g} (not inverted)"
+    return True, where + ": handedness inverted"
 
 
 def replay_step(ni, sa, sb):
